@@ -116,10 +116,13 @@ def main_wrapper(fn, prop, argv=None):
     a = ap.parse_args(argv)
     ctx = Ctx(prop, a.tier, a.seed)
     ctx.replay_file = a.replay
+    from harness import forkpool
     try:
         fn(ctx)
         rc = ctx.finish()
     except Machinery as e:
         print("MACHINERY-FAILURE property=%s: %s" % (prop, e))
         rc = 2
+    finally:
+        forkpool.shutdown()
     sys.exit(rc)
